@@ -22,32 +22,59 @@ fn strs(args: &[Field]) -> Vec<&str> {
     args.iter().map(|f| f.value.as_str()).collect()
 }
 
-/// Deterministic byte stream `S`: byte i of stream s.
-pub fn stream_byte(s: u64, i: u64, alphabet: u8) -> u8 {
+fn mix(s: u64, i: u64) -> u64 {
     let mut x = s
         .wrapping_mul(0x9E37_79B9_7F4A_7C15)
         .wrapping_add(i.wrapping_mul(0xD1B5_4A32_D192_ED03));
     x ^= x >> 29;
     x = x.wrapping_mul(0xBF58_476D_1CE4_E5B9);
     x ^= x >> 32;
-    match alphabet {
-        // printable ASCII without newline
-        0 => b'!' + (x % 90) as u8,
-        // ASCII with embedded newlines
-        1 => {
-            if x % 7 == 0 {
-                b'\n'
-            } else {
-                b'a' + (x % 26) as u8
-            }
-        }
-        // arbitrary non-NUL bytes
-        _ => 1 + (x % 255) as u8,
-    }
+    x
 }
 
+/// Deterministic stream `S` of `n` units in the given alphabet, as bytes.
+///
+/// 0: printable ASCII without newline; 1: lower-case letters with embedded
+/// newlines; 2: arbitrary non-NUL bytes; 3: multi-byte UTF-8 characters (a unit
+/// is a character, so chunk boundaries split characters).
 pub fn stream_bytes(s: u64, n: usize, alphabet: u8) -> Vec<u8> {
-    (0..n as u64).map(|i| stream_byte(s, i, alphabet)).collect()
+    let mut out = Vec::with_capacity(n);
+    for i in 0..n as u64 {
+        let x = mix(s, i);
+        match alphabet {
+            0 => out.push(b'!' + (x % 90) as u8),
+            1 => out.push(if x % 7 == 0 { b'\n' } else { b'a' + (x % 26) as u8 }),
+            2 => out.push(1 + (x % 255) as u8),
+            _ => {
+                const CHARS: [&str; 8] = ["a", "\u{e9}", "\u{3042}", "\u{1F600}", "z", "\n", "\u{df}", "\u{20AC}"];
+                out.extend_from_slice(CHARS[(x % 8) as usize].as_bytes());
+            }
+        }
+    }
+    out
+}
+
+/// Summary printed by `sink`: length, first offset deviating from the
+/// expected stream (-1 if it is a prefix-exact match), hash.
+pub fn sink_summary(data: &[u8], s: u64, alphabet: u8) -> String {
+    // the expected stream, long enough to cover the data
+    let mut units = data.len();
+    let mut expected = stream_bytes(s, units, alphabet);
+    while expected.len() < data.len() {
+        units = units * 2 + 8;
+        expected = stream_bytes(s, units, alphabet);
+    }
+    let bad = data
+        .iter()
+        .zip(expected.iter())
+        .position(|(a, b)| a != b)
+        .map_or(-1, |p| p as i64);
+    format!(
+        "len={} bad={} hash={:016x}\n",
+        data.len(),
+        bad,
+        crate::rng::fnv1a(data)
+    )
 }
 
 async fn write_out<S: WriteAll>(env: &mut Env<S>, fd: Fd, data: &[u8]) -> ExitStatus {
@@ -165,22 +192,11 @@ fn sink_main<S: WriteAll + Read>(env: &mut Env<S>, args: Vec<Field>) -> BFut<'_>
         let alphabet: u8 = a.get(1).and_then(|s| s.parse().ok()).unwrap_or(0);
         let b: usize = a.get(2).and_then(|s| s.parse().ok()).unwrap_or(300).max(1);
         let mut buf = vec![0u8; b];
-        let mut total = 0u64;
-        let mut bad: i64 = -1;
-        let mut hash: u64 = 0xcbf2_9ce4_8422_2325;
+        let mut data = Vec::new();
         loop {
             match read_some(env, &mut buf).await {
                 Ok(0) => break,
-                Ok(n) => {
-                    for &byte in &buf[..n] {
-                        if bad < 0 && byte != stream_byte(s, total, alphabet) {
-                            bad = total as i64;
-                        }
-                        hash ^= byte as u64;
-                        hash = hash.wrapping_mul(0x0000_0100_0000_01B3);
-                        total += 1;
-                    }
-                }
+                Ok(n) => data.extend_from_slice(&buf[..n]),
                 Err(e) => {
                     let msg = format!("sink: read error {e}\n");
                     write_out(env, Fd::STDOUT, msg.as_bytes()).await;
@@ -188,7 +204,7 @@ fn sink_main<S: WriteAll + Read>(env: &mut Env<S>, args: Vec<Field>) -> BFut<'_>
                 }
             }
         }
-        let msg = format!("len={total} bad={bad} hash={hash:016x}\n");
+        let msg = sink_summary(&data, s, alphabet);
         BResult::new(write_out(env, Fd::STDOUT, msg.as_bytes()).await)
     })
 }
